@@ -27,6 +27,7 @@ struct TrackedT {
  private:
 	void ctor_enter(char const* what) {
 		if(W.in_region(this)) {
+			HGuard hg;
 			if(is_live()) W.violate("LIFE-ctor-over-live", std::string(what) + " constructs over a live object at " + W.describe(this));
 			int const id = W.find_block(this);
 			if(id < 0 || !W.blocks[static_cast<std::size_t>(id)].live) W.violate("LIFE-ctor-outside-block", std::string(what) + " constructs at " + W.describe(this) + " which is not inside a live block");
@@ -47,6 +48,7 @@ struct TrackedT {
 	}
 	bool src_ok(TrackedT const& o, char const* what) const {
 		if(!o.is_live()) {
+			HGuard hg;
 			W.violate("LIFE-use-of-dead", std::string(what) + " reads a dead object at " + W.describe(&o));
 			return false;
 		}
@@ -54,6 +56,7 @@ struct TrackedT {
 	}
 	bool dst_ok(char const* what) const {
 		if(!is_live()) {
+			HGuard hg;
 			W.violate("LIFE-use-of-dead", std::string(what) + " assigns to a dead object at " + W.describe(this));
 			return false;
 		}
@@ -122,6 +125,7 @@ struct TrackedT {
 	~TrackedT() {
 		W.event(E_DTOR);
 		if(!is_live()) {
+			HGuard hg;
 			W.violate("LIFE-dtor-of-dead", "destructor runs on a dead object at " + W.describe(this));
 			return;
 		}
